@@ -35,6 +35,9 @@ thread_local! {
     pub static BODIES: RefCell<(usize, usize)> = const { RefCell::new((0, 0)) };
     /// Number of timeouts that fired in this execution.
     pub static TIMEOUTS_FIRED: RefCell<usize> = const { RefCell::new(0) };
+    /// Nanoseconds the virtual clock advances with every reading of it (0:
+    /// time stands still unless a timer fires or the harness advances it).
+    pub static TICK: RefCell<u64> = const { RefCell::new(0) };
 }
 
 /// Must be called at the start of every execution.
@@ -43,10 +46,19 @@ pub fn reset() {
     NOW.with(|n| *n.borrow_mut() = T0);
     BODIES.with(|b| *b.borrow_mut() = (0, 0));
     TIMEOUTS_FIRED.with(|b| *b.borrow_mut() = 0);
+    TICK.with(|b| *b.borrow_mut() = 0);
 }
 
 pub fn now_ns() -> u64 {
     NOW.with(|n| *n.borrow())
+}
+
+/// Second clock model: every reading of the clock (`Instant::now()`) is
+/// `tick` ns later than the previous one - execution takes time, so a
+/// deadline of a few nanoseconds has passed by the time it is looked at.
+/// To be called after `reset()`.
+pub fn set_tick_ns(tick: u64) {
+    TICK.with(|b| *b.borrow_mut() = tick);
 }
 
 /// Harness-controlled advance of the virtual clock.
@@ -417,6 +429,10 @@ pub mod time {
 
     impl Instant {
         pub fn now() -> Self {
+            let tick = super::TICK.with(|t| *t.borrow());
+            if tick > 0 {
+                super::advance_ns(tick);
+            }
             Instant(super::now_ns())
         }
         pub fn duration_since(&self, earlier: Instant) -> Duration {
